@@ -22,8 +22,8 @@ func init() {
 		Level: "exploration",
 		Rule: "one case = one schedule of 5-8 tasks over one real TxPool + chain: 2-4 client tasks submit transactions (in and out of nonce order, duplicates of each other's transactions, internal and external path, priority types), the engine task takes candidate lists, proposes and inserts blocks (ResetTo), a sync task toggles StartSync/StopSync, a query task reads by hash and address; every cooperative lock acquisition is a scheduling point decided by the tape; " +
 			"non-trivial = >= 2 blocks with transactions were built from the pool while client tasks were still submitting; distinct by the task-switch sequence (history fingerprint)",
-		Real:         []string{"core/mempool.TxPool (add, put, Remove, ResetTo, movePendingTxsToExecutable, BuildBlockTransactions, StartSync/StopSync)", "core/mempool block builder", "core/state.NonceCache", "blockchain.ProposeBlock / AddBlock", "blockchain/validation"},
-		Stub:         []string{"tx keeper file persistence (off, as in upstream tests)", "push tracker loops of the pool (not started)", "gossip of accepted transactions"},
+		Real: []string{"core/mempool.TxPool (add, put, Remove, ResetTo, movePendingTxsToExecutable, BuildBlockTransactions, StartSync/StopSync)", "core/mempool block builder", "core/state.NonceCache", "blockchain.ProposeBlock / AddBlock", "blockchain/validation"},
+		Stub: []string{"tx keeper file persistence (off, as in upstream tests)", "push tracker loops of the pool (not started)", "gossip of accepted transactions"},
 		Assumptions: []string{"candidate lists are taken by the task that also inserts blocks, as the consensus engine does; submissions, sync toggles and queries interleave freely at every lock",
 			"data races proper are outside a baton scheduler's reach (it creates happens-before edges everywhere): the race clause is not decided here; atomicity at lock granularity, ordering, deadlock and the stated invariants are"},
 		QuickSecs:    60,
